@@ -477,10 +477,9 @@ private theorem isortRev_never (less : α → α → Bool) (h : ∀ x y, less x 
   | nil => rfl
   | cons x t ih => simp [isortRev, insertRev_never less h, ih]
 
-/-- stability, PARTIAL: proved only for the degenerate consistent comparators under which all
-elements are equal (e.g. one that always answers NaN or ±0 by the spec's reading): then the output
-is the input. What is missing: stability for a general strict weak order. -/
-theorem sort_stable_partial (less : α → α → Bool) (h : ∀ x y, less x y = false) (l : List α) :
+/-- a comparator under which nothing is ever "less" (all elements equal: always NaN / ±0 by the
+spec's reading) leaves the input untouched. (General stability: `sort_stable` in PropsElem.) -/
+theorem sort_identity_when_all_equal (less : α → α → Bool) (h : ∀ x y, less x y = false) (l : List α) :
     isort less l = l := by
   simp [isort, isortRev_never less h]
 
@@ -497,26 +496,274 @@ theorem sort_negzero_witness :
     ¬ (isort (mechLess (fun _ _ => CmpRes.negZero)) [some 1, some 2] = [some 1, some 2]) := by
   decide
 
-/-! ## `_defineOwnProperty` vs ValidateAndApplyPropertyDescriptor (C04's subject; only what the
-array model needs).  The array theorems above do not depend on it. -/
+/-! ## `_defineOwnProperty` (fixed code, d72dab1) refines ValidateAndApplyPropertyDescriptor -/
 
-/-- `defineProperty(a, i, {get: undefined})` on a NON-configurable data element: the spec rejects,
-the transcription of object.go:681 accepts and turns it into an accessor (defect witness). -/
-theorem mechDefine_kind_change_witness :
-    let e : Elem := .prop { value := 7, writable := false, enumerable := false, configurable := false,
-                            accessor := false, getter := none, setter := none }
-    let d : Desc := { getter := some none }
-    ¬ ((mechDefine (some e) d true).map Elem.abs = specDefine (some e.abs) d true) := by
-  decide
+/-- representation invariant of a `valueProperty`: an accessor carries no value and no
+`writable`; a data property carries no accessor functions. Established by `mechDefine` and kept
+by every array operation. -/
+def VProp.WF (p : VProp) : Prop :=
+  (p.accessor = true → p.writable = false ∧ p.value = 0) ∧
+  (p.accessor = false → p.getter = none ∧ p.setter = none)
 
-/-- accessor → data conversion keeps a stale `writable` (defect witness): data{W:true} → accessor →
-`{value: v}` must yield writable:false. -/
-theorem mechDefine_stale_writable_witness :
-    let e : Elem := .prop { value := 0, writable := true, enumerable := false, configurable := true,
-                            accessor := true, getter := some 1, setter := none }
-    let d : Desc := { value := some 2 }
-    ¬ ((mechDefine (some e) d true).map Elem.abs = specDefine (some e.abs) d true) := by
-  decide
+def Elem.WF : Elem → Prop
+  | .plain _ => True
+  | .prop p => p.WF
+
+/-- ToPropertyDescriptor never yields a descriptor with both data and accessor fields. -/
+def Desc.Valid (d : Desc) : Prop := ¬ (d.isData = true ∧ d.isAccessor = true)
+
+theorem mechDefine_refines_fresh (d : Desc) (ext : Bool) (hd : d.Valid) :
+    (mechDefine none d ext).map Elem.abs = specDefine none d ext := by
+  obtain ⟨v, w, e, c, g, s⟩ := d
+  have hd' : (v = none ∧ w = none) ∨ (g = none ∧ s = none) := by
+    rcases v with _ | v <;> rcases w with _ | w <;> rcases g with _ | g <;> rcases s with _ | s <;>
+      simp_all [Desc.Valid, Desc.isData, Desc.isAccessor]
+  cases ext
+  · rfl
+  · rcases hd' with ⟨rfl, rfl⟩ | ⟨rfl, rfl⟩
+    · rcases e with _ | (_|_) <;> rcases c with _ | (_|_) <;> rcases g with _ | g <;> rcases s with _ | s <;>
+        first
+          | rfl
+          | (simp [mechDefine, mechReject, mechApply, specDefine, Elem.abs, Elem.toVProp, flagIs, Desc.isData, Desc.isAccessor, SProp.configurable, SProp.enumerable] <;> (try split) <;> simp_all [Elem.abs])
+    · rcases v with _ | v <;> rcases w with _ | (_|_) <;> rcases e with _ | (_|_) <;> rcases c with _ | (_|_) <;>
+        first
+          | rfl
+          | (simp [mechDefine, mechReject, mechApply, specDefine, Elem.abs, Elem.toVProp, flagIs, Desc.isData, Desc.isAccessor, SProp.configurable, SProp.enumerable] <;> (try split) <;> simp_all [Elem.abs])
+
+private theorem md_plain (pv : Val) (d : Desc) (ext : Bool) (hd : d.Valid) :
+    (mechDefine (some (.plain pv)) d ext).map Elem.abs = specDefine (some (.plain pv : Elem).abs) d ext := by
+  obtain ⟨v, w, e, c, g, s⟩ := d
+  have hd' : (v = none ∧ w = none) ∨ (g = none ∧ s = none) := by
+    rcases v with _ | v <;> rcases w with _ | w <;> rcases g with _ | g <;> rcases s with _ | s <;>
+      simp_all [Desc.Valid, Desc.isData, Desc.isAccessor]
+  rcases hd' with ⟨rfl, rfl⟩ | ⟨rfl, rfl⟩
+  · rcases e with _ | (_|_) <;> rcases c with _ | (_|_) <;> rcases g with _ | g <;> rcases s with _ | s <;>
+      first
+        | rfl
+        | (simp [mechDefine, mechReject, mechApply, specDefine, Elem.abs, Elem.toVProp, flagIs, Desc.isData, Desc.isAccessor, SProp.configurable, SProp.enumerable] <;> (try split) <;> simp_all [Elem.abs])
+  · rcases v with _ | v <;> rcases w with _ | (_|_) <;> rcases e with _ | (_|_) <;> rcases c with _ | (_|_) <;>
+      first
+        | rfl
+        | (simp [mechDefine, mechReject, mechApply, specDefine, Elem.abs, Elem.toVProp, flagIs, Desc.isData, Desc.isAccessor, SProp.configurable, SProp.enumerable] <;> (try split) <;> simp_all [Elem.abs])
+
+private theorem md_data_conf (pv : Val) (bw be : Bool) (d : Desc) (ext : Bool) (hd : d.Valid) :
+    (mechDefine (some (.prop ⟨pv, bw, be, true, false, none, none⟩)) d ext).map Elem.abs = specDefine (some (.prop ⟨pv, bw, be, true, false, none, none⟩ : Elem).abs) d ext := by
+  obtain ⟨v, w, e, c, g, s⟩ := d
+  have hd' : (v = none ∧ w = none) ∨ (g = none ∧ s = none) := by
+    rcases v with _ | v <;> rcases w with _ | w <;> rcases g with _ | g <;> rcases s with _ | s <;>
+      simp_all [Desc.Valid, Desc.isData, Desc.isAccessor]
+  rcases hd' with ⟨rfl, rfl⟩ | ⟨rfl, rfl⟩
+  · rcases e with _ | (_|_) <;> rcases c with _ | (_|_) <;> rcases g with _ | g <;> rcases s with _ | s <;>
+      first
+        | rfl
+        | (simp [mechDefine, mechReject, mechApply, specDefine, Elem.abs, Elem.toVProp, flagIs, Desc.isData, Desc.isAccessor, SProp.configurable, SProp.enumerable] <;> (try split) <;> simp_all [Elem.abs])
+  · rcases v with _ | v <;> rcases w with _ | (_|_) <;> rcases e with _ | (_|_) <;> rcases c with _ | (_|_) <;>
+      first
+        | rfl
+        | (simp [mechDefine, mechReject, mechApply, specDefine, Elem.abs, Elem.toVProp, flagIs, Desc.isData, Desc.isAccessor, SProp.configurable, SProp.enumerable] <;> (try split) <;> simp_all [Elem.abs])
+
+private theorem md_data_nc_true_true (pv : Val) (d : Desc) (ext : Bool) (hd : d.Valid) :
+    (mechDefine (some (.prop ⟨pv, true, true, false, false, none, none⟩)) d ext).map Elem.abs = specDefine (some (.prop ⟨pv, true, true, false, false, none, none⟩ : Elem).abs) d ext := by
+  obtain ⟨v, w, e, c, g, s⟩ := d
+  have hd' : (v = none ∧ w = none) ∨ (g = none ∧ s = none) := by
+    rcases v with _ | v <;> rcases w with _ | w <;> rcases g with _ | g <;> rcases s with _ | s <;>
+      simp_all [Desc.Valid, Desc.isData, Desc.isAccessor]
+  rcases hd' with ⟨rfl, rfl⟩ | ⟨rfl, rfl⟩
+  · rcases e with _ | (_|_) <;> rcases c with _ | (_|_) <;> rcases g with _ | g <;> rcases s with _ | s <;>
+      first
+        | rfl
+        | (simp [mechDefine, mechReject, mechApply, specDefine, Elem.abs, Elem.toVProp, flagIs, Desc.isData, Desc.isAccessor, SProp.configurable, SProp.enumerable] <;> (try split) <;> simp_all [Elem.abs])
+  · rcases v with _ | v <;> rcases w with _ | (_|_) <;> rcases e with _ | (_|_) <;> rcases c with _ | (_|_) <;>
+      first
+        | rfl
+        | (simp [mechDefine, mechReject, mechApply, specDefine, Elem.abs, Elem.toVProp, flagIs, Desc.isData, Desc.isAccessor, SProp.configurable, SProp.enumerable] <;> (try split) <;> simp_all [Elem.abs])
+
+private theorem md_data_nc_true_false (pv : Val) (d : Desc) (ext : Bool) (hd : d.Valid) :
+    (mechDefine (some (.prop ⟨pv, true, false, false, false, none, none⟩)) d ext).map Elem.abs = specDefine (some (.prop ⟨pv, true, false, false, false, none, none⟩ : Elem).abs) d ext := by
+  obtain ⟨v, w, e, c, g, s⟩ := d
+  have hd' : (v = none ∧ w = none) ∨ (g = none ∧ s = none) := by
+    rcases v with _ | v <;> rcases w with _ | w <;> rcases g with _ | g <;> rcases s with _ | s <;>
+      simp_all [Desc.Valid, Desc.isData, Desc.isAccessor]
+  rcases hd' with ⟨rfl, rfl⟩ | ⟨rfl, rfl⟩
+  · rcases e with _ | (_|_) <;> rcases c with _ | (_|_) <;> rcases g with _ | g <;> rcases s with _ | s <;>
+      first
+        | rfl
+        | (simp [mechDefine, mechReject, mechApply, specDefine, Elem.abs, Elem.toVProp, flagIs, Desc.isData, Desc.isAccessor, SProp.configurable, SProp.enumerable] <;> (try split) <;> simp_all [Elem.abs])
+  · rcases v with _ | v <;> rcases w with _ | (_|_) <;> rcases e with _ | (_|_) <;> rcases c with _ | (_|_) <;>
+      first
+        | rfl
+        | (simp [mechDefine, mechReject, mechApply, specDefine, Elem.abs, Elem.toVProp, flagIs, Desc.isData, Desc.isAccessor, SProp.configurable, SProp.enumerable] <;> (try split) <;> simp_all [Elem.abs])
+
+private theorem md_data_nc_false_true (pv : Val) (d : Desc) (ext : Bool) (hd : d.Valid) :
+    (mechDefine (some (.prop ⟨pv, false, true, false, false, none, none⟩)) d ext).map Elem.abs = specDefine (some (.prop ⟨pv, false, true, false, false, none, none⟩ : Elem).abs) d ext := by
+  obtain ⟨v, w, e, c, g, s⟩ := d
+  have hd' : (v = none ∧ w = none) ∨ (g = none ∧ s = none) := by
+    rcases v with _ | v <;> rcases w with _ | w <;> rcases g with _ | g <;> rcases s with _ | s <;>
+      simp_all [Desc.Valid, Desc.isData, Desc.isAccessor]
+  rcases hd' with ⟨rfl, rfl⟩ | ⟨rfl, rfl⟩
+  · rcases e with _ | (_|_) <;> rcases c with _ | (_|_) <;> rcases g with _ | g <;> rcases s with _ | s <;>
+      first
+        | rfl
+        | (simp [mechDefine, mechReject, mechApply, specDefine, Elem.abs, Elem.toVProp, flagIs, Desc.isData, Desc.isAccessor, SProp.configurable, SProp.enumerable] <;> (try split) <;> simp_all [Elem.abs])
+  · rcases v with _ | v <;> rcases w with _ | (_|_) <;> rcases e with _ | (_|_) <;> rcases c with _ | (_|_) <;>
+      first
+        | rfl
+        | (simp [mechDefine, mechReject, mechApply, specDefine, Elem.abs, Elem.toVProp, flagIs, Desc.isData, Desc.isAccessor, SProp.configurable, SProp.enumerable] <;> (try split) <;> simp_all [Elem.abs])
+
+private theorem md_data_nc_false_false (pv : Val) (d : Desc) (ext : Bool) (hd : d.Valid) :
+    (mechDefine (some (.prop ⟨pv, false, false, false, false, none, none⟩)) d ext).map Elem.abs = specDefine (some (.prop ⟨pv, false, false, false, false, none, none⟩ : Elem).abs) d ext := by
+  obtain ⟨v, w, e, c, g, s⟩ := d
+  have hd' : (v = none ∧ w = none) ∨ (g = none ∧ s = none) := by
+    rcases v with _ | v <;> rcases w with _ | w <;> rcases g with _ | g <;> rcases s with _ | s <;>
+      simp_all [Desc.Valid, Desc.isData, Desc.isAccessor]
+  rcases hd' with ⟨rfl, rfl⟩ | ⟨rfl, rfl⟩
+  · rcases e with _ | (_|_) <;> rcases c with _ | (_|_) <;> rcases g with _ | g <;> rcases s with _ | s <;>
+      first
+        | rfl
+        | (simp [mechDefine, mechReject, mechApply, specDefine, Elem.abs, Elem.toVProp, flagIs, Desc.isData, Desc.isAccessor, SProp.configurable, SProp.enumerable] <;> (try split) <;> simp_all [Elem.abs])
+  · rcases v with _ | v <;> rcases w with _ | (_|_) <;> rcases e with _ | (_|_) <;> rcases c with _ | (_|_) <;>
+      first
+        | rfl
+        | (simp [mechDefine, mechReject, mechApply, specDefine, Elem.abs, Elem.toVProp, flagIs, Desc.isData, Desc.isAccessor, SProp.configurable, SProp.enumerable] <;> (try split) <;> simp_all [Elem.abs])
+
+private theorem md_acc_conf (pg ps : Option Val) (be : Bool) (d : Desc) (ext : Bool) (hd : d.Valid) :
+    (mechDefine (some (.prop ⟨0, false, be, true, true, pg, ps⟩)) d ext).map Elem.abs = specDefine (some (.prop ⟨0, false, be, true, true, pg, ps⟩ : Elem).abs) d ext := by
+  obtain ⟨v, w, e, c, g, s⟩ := d
+  have hd' : (v = none ∧ w = none) ∨ (g = none ∧ s = none) := by
+    rcases v with _ | v <;> rcases w with _ | w <;> rcases g with _ | g <;> rcases s with _ | s <;>
+      simp_all [Desc.Valid, Desc.isData, Desc.isAccessor]
+  rcases hd' with ⟨rfl, rfl⟩ | ⟨rfl, rfl⟩
+  · rcases e with _ | (_|_) <;> rcases c with _ | (_|_) <;> rcases g with _ | g <;> rcases s with _ | s <;>
+      first
+        | rfl
+        | (simp [mechDefine, mechReject, mechApply, specDefine, Elem.abs, Elem.toVProp, flagIs, Desc.isData, Desc.isAccessor, SProp.configurable, SProp.enumerable] <;> (try split) <;> simp_all [Elem.abs])
+  · rcases v with _ | v <;> rcases w with _ | (_|_) <;> rcases e with _ | (_|_) <;> rcases c with _ | (_|_) <;>
+      first
+        | rfl
+        | (simp [mechDefine, mechReject, mechApply, specDefine, Elem.abs, Elem.toVProp, flagIs, Desc.isData, Desc.isAccessor, SProp.configurable, SProp.enumerable] <;> (try split) <;> simp_all [Elem.abs])
+
+private theorem md_acc_nc_true (pg ps : Option Val) (d : Desc) (ext : Bool) (hd : d.Valid) :
+    (mechDefine (some (.prop ⟨0, false, true, false, true, pg, ps⟩)) d ext).map Elem.abs = specDefine (some (.prop ⟨0, false, true, false, true, pg, ps⟩ : Elem).abs) d ext := by
+  obtain ⟨v, w, e, c, g, s⟩ := d
+  have hd' : (v = none ∧ w = none) ∨ (g = none ∧ s = none) := by
+    rcases v with _ | v <;> rcases w with _ | w <;> rcases g with _ | g <;> rcases s with _ | s <;>
+      simp_all [Desc.Valid, Desc.isData, Desc.isAccessor]
+  rcases hd' with ⟨rfl, rfl⟩ | ⟨rfl, rfl⟩
+  · rcases e with _ | (_|_) <;> rcases c with _ | (_|_) <;> rcases g with _ | g <;> rcases s with _ | s <;>
+      first
+        | rfl
+        | (simp [mechDefine, mechReject, mechApply, specDefine, Elem.abs, Elem.toVProp, flagIs, Desc.isData, Desc.isAccessor, SProp.configurable, SProp.enumerable] <;> (try split) <;> simp_all [Elem.abs])
+  · rcases v with _ | v <;> rcases w with _ | (_|_) <;> rcases e with _ | (_|_) <;> rcases c with _ | (_|_) <;>
+      first
+        | rfl
+        | (simp [mechDefine, mechReject, mechApply, specDefine, Elem.abs, Elem.toVProp, flagIs, Desc.isData, Desc.isAccessor, SProp.configurable, SProp.enumerable] <;> (try split) <;> simp_all [Elem.abs])
+
+private theorem md_acc_nc_false (pg ps : Option Val) (d : Desc) (ext : Bool) (hd : d.Valid) :
+    (mechDefine (some (.prop ⟨0, false, false, false, true, pg, ps⟩)) d ext).map Elem.abs = specDefine (some (.prop ⟨0, false, false, false, true, pg, ps⟩ : Elem).abs) d ext := by
+  obtain ⟨v, w, e, c, g, s⟩ := d
+  have hd' : (v = none ∧ w = none) ∨ (g = none ∧ s = none) := by
+    rcases v with _ | v <;> rcases w with _ | w <;> rcases g with _ | g <;> rcases s with _ | s <;>
+      simp_all [Desc.Valid, Desc.isData, Desc.isAccessor]
+  rcases hd' with ⟨rfl, rfl⟩ | ⟨rfl, rfl⟩
+  · rcases e with _ | (_|_) <;> rcases c with _ | (_|_) <;> rcases g with _ | g <;> rcases s with _ | s <;>
+      first
+        | rfl
+        | (simp [mechDefine, mechReject, mechApply, specDefine, Elem.abs, Elem.toVProp, flagIs, Desc.isData, Desc.isAccessor, SProp.configurable, SProp.enumerable] <;> (try split) <;> simp_all [Elem.abs])
+  · rcases v with _ | v <;> rcases w with _ | (_|_) <;> rcases e with _ | (_|_) <;> rcases c with _ | (_|_) <;>
+      first
+        | rfl
+        | (simp [mechDefine, mechReject, mechApply, specDefine, Elem.abs, Elem.toVProp, flagIs, Desc.isData, Desc.isAccessor, SProp.configurable, SProp.enumerable] <;> (try split) <;> simp_all [Elem.abs])
+
+/-- `_defineOwnProperty` (object.go:650, after d72dab1) refines ValidateAndApplyPropertyDescriptor
+for every well-formed existing element, every valid descriptor and both extensibility values. -/
+theorem mechDefine_refines (e : Option Elem) (d : Desc) (ext : Bool) (hwf : ∀ x, e = some x → x.WF) (hd : d.Valid) :
+    (mechDefine e d ext).map Elem.abs = specDefine (e.map Elem.abs) d ext := by
+  cases e with
+  | none => exact mechDefine_refines_fresh d ext hd
+  | some x =>
+    have hx := hwf x rfl
+    cases x with
+    | plain pv => exact md_plain pv d ext hd
+    | prop p =>
+      obtain ⟨pv, bw, be, bc, ba, pg, ps⟩ := p
+      obtain ⟨h1, h2⟩ := hx
+      cases ba
+      · obtain ⟨rfl, rfl⟩ := h2 rfl
+        cases bc
+        · cases bw <;> cases be
+          · exact md_data_nc_false_false pv d ext hd
+          · exact md_data_nc_false_true pv d ext hd
+          · exact md_data_nc_true_false pv d ext hd
+          · exact md_data_nc_true_true pv d ext hd
+        · exact md_data_conf pv bw be d ext hd
+      · obtain ⟨rfl, rfl⟩ := h1 rfl
+        cases bc
+        · cases be
+          · exact md_acc_nc_false pg ps d ext hd
+          · exact md_acc_nc_true pg ps d ext hd
+        · exact md_acc_conf pg ps be d ext hd
+
+private theorem ma_data (pv : Val) (bw be bc : Bool) (d : Desc) (hd : d.Valid) :
+    (mechApply ⟨pv, bw, be, bc, false, none, none⟩ d).WF := by
+  obtain ⟨v, w, e, c, g, s⟩ := d
+  have hd' : (v = none ∧ w = none) ∨ (g = none ∧ s = none) := by
+    rcases v with _ | v <;> rcases w with _ | w <;> rcases g with _ | g <;> rcases s with _ | s <;>
+      simp_all [Desc.Valid, Desc.isData, Desc.isAccessor]
+  rcases hd' with ⟨rfl, rfl⟩ | ⟨rfl, rfl⟩
+  · rcases e with _ | (_|_) <;> rcases c with _ | (_|_) <;> rcases g with _ | g <;> rcases s with _ | s <;>
+      first
+        | trivial
+        | (simp [mechApply, flagIs, Desc.isData, Desc.isAccessor, Elem.WF, VProp.WF])
+  · rcases v with _ | v <;> rcases w with _ | (_|_) <;> rcases e with _ | (_|_) <;> rcases c with _ | (_|_) <;>
+      first
+        | trivial
+        | (simp [mechApply, flagIs, Desc.isData, Desc.isAccessor, Elem.WF, VProp.WF])
+
+private theorem ma_acc (pg ps : Option Val) (be bc : Bool) (d : Desc) (hd : d.Valid) :
+    (mechApply ⟨0, false, be, bc, true, pg, ps⟩ d).WF := by
+  obtain ⟨v, w, e, c, g, s⟩ := d
+  have hd' : (v = none ∧ w = none) ∨ (g = none ∧ s = none) := by
+    rcases v with _ | v <;> rcases w with _ | w <;> rcases g with _ | g <;> rcases s with _ | s <;>
+      simp_all [Desc.Valid, Desc.isData, Desc.isAccessor]
+  rcases hd' with ⟨rfl, rfl⟩ | ⟨rfl, rfl⟩
+  · rcases e with _ | (_|_) <;> rcases c with _ | (_|_) <;> rcases g with _ | g <;> rcases s with _ | s <;>
+      first
+        | trivial
+        | (simp [mechApply, flagIs, Desc.isData, Desc.isAccessor, Elem.WF, VProp.WF])
+  · rcases v with _ | v <;> rcases w with _ | (_|_) <;> rcases e with _ | (_|_) <;> rcases c with _ | (_|_) <;>
+      first
+        | trivial
+        | (simp [mechApply, flagIs, Desc.isData, Desc.isAccessor, Elem.WF, VProp.WF])
+
+private theorem mechApply_wf (ex : VProp) (d : Desc) (hex : ex.WF) (hd : d.Valid) : (mechApply ex d).WF := by
+  obtain ⟨pv, bw, be, bc, ba, pg, ps⟩ := ex
+  obtain ⟨h1, h2⟩ := hex
+  cases ba
+  · obtain ⟨rfl, rfl⟩ := h2 rfl
+    exact ma_data pv bw be bc d hd
+  · obtain ⟨rfl, rfl⟩ := h1 rfl
+    exact ma_acc pg ps be bc d hd
+
+/-- `_defineOwnProperty` keeps elements well-formed (so the hypothesis of `mechDefine_refines`
+holds along every history that starts from well-formed elements). -/
+theorem mechDefine_wf (e : Option Elem) (d : Desc) (ext : Bool) (hwf : ∀ x, e = some x → x.WF) (hd : d.Valid)
+    (y : Elem) (hy : mechDefine e d ext = some y) : y.WF := by
+  cases e with
+  | none =>
+    simp only [mechDefine] at hy
+    split at hy
+    · cases hy
+    · cases hy
+      exact mechApply_wf _ d ⟨fun h => (by simp at h), fun _ => ⟨rfl, rfl⟩⟩ hd
+  | some x =>
+    simp only [mechDefine] at hy
+    split at hy
+    · cases hy
+    · cases hy
+      refine mechApply_wf _ d ?_ hd
+      cases x with
+      | plain pv => exact ⟨fun h => Bool.noConfusion h, fun _ => ⟨rfl, rfl⟩⟩
+      | prop p => exact hwf _ rfl
 
 /-! ## Non-vacuity (tests on literals, not theorems about all states) -/
 
